@@ -292,6 +292,36 @@ def parallel(jobs, max_workers=6):
         return [f.result() for f in futs]
 
 
+def validate_records(chk, module, records, what, nchunks=8, cfg=None, strip=None, extra_files=None, timeout=3000):
+    """Batch trace validation of independent records: splits into chunks validated by parallel TLC processes.
+    Returns (set of 0-based indices the mechanism model does not explain, {0-based index: set of failed clauses})."""
+    import json as _json
+    if not records:
+        return set(), {}
+    nchunks = max(1, min(nchunks, len(records) // 20 or 1))
+    chunks = [list(range(i, len(records), nchunks)) for i in range(nchunks)]
+
+    def one(idxs):
+        ws = tla_workspace()
+        for name, text in (extra_files or {}).items():
+            with open(os.path.join(ws, name), 'w') as fh:
+                fh.write(text)
+        path = os.path.join(ws, 'traces.json')
+        with open(path, 'w') as fh:
+            _json.dump([(strip(records[i]) if strip else records[i]) for i in idxs], fh)
+        return idxs, run_tlc(ws, module, cfg or (module + '.cfg'), workers=1, env={'TRACE_FILE': path}, timeout=timeout)
+    missing, fails = set(), {}
+    for idxs, r in parallel([(lambda c=c: one(c)) for c in chunks], max_workers=8):
+        chk.add_tlc(r, '%s %s (%d records)' % (module, what, len(idxs)))
+        mm, ff = trace_report(r)
+        for tid in mm:
+            missing.add(idxs[tid - 1])
+        for tid, cl in ff.items():
+            fails.setdefault(idxs[tid - 1], set()).update(cl)
+    chk.traces_validated += len(records) - len(missing | set(fails))
+    return missing, fails
+
+
 def trace_report(r):
     """Parse the POSTCONDITION report of a batch trace validation:
     (set of tids the mechanism model could not follow, {tid: set of failed property clauses})."""
